@@ -118,6 +118,9 @@ type c17Val struct {
 	Prec     int      `json:"prec,omitempty"`     // decimal: 0..18
 	NoOpts   bool     `json:"noOpts,omitempty"`   // the model path carries no TypeOpts (ints <= 32 bit, decimals)
 	NilModel bool     `json:"nilModel,omitempty"` // with NoOpts: a nil model path instead of an empty one
+	// ModelPrec > 0: the model reports this many fraction digits for the path although the client sends Prec
+	// (the value the client sent is what must be stored either way)
+	ModelPrec int `json:"modelPrec,omitempty"`
 	NilBytes bool     `json:"nilBytes,omitempty"` // scalar empty bytes held as nil instead of []byte{}
 	S        []string `json:"s,omitempty"`
 	I        []int64  `json:"i,omitempty"`
@@ -226,6 +229,9 @@ func (v c17Val) opts() []uint64 {
 	case "int", "uint":
 		return []uint64{uint64(v.Width)}
 	case "decimal":
+		if v.ModelPrec > 0 {
+			return []uint64{uint64(v.ModelPrec)}
+		}
 		return []uint64{uint64(v.Prec)}
 	}
 	return nil
@@ -1026,6 +1032,10 @@ func c17GenVal(s c17Src) c17Val {
 		if s.Intn(2, "noopts") == 0 {
 			v.NoOpts = true
 			v.NilModel = s.Intn(2, "nilmodel") == 0
+		} else if s.Intn(3, "modelprec") == 0 {
+			if mp := []int{3, 1, 18, 2, 6}[s.Intn(5, "modelprecval")]; mp != v.Prec {
+				v.ModelPrec = mp
+			}
 		}
 	}
 	for i := 0; i < n; i++ {
@@ -1089,6 +1099,9 @@ func (v c17Val) classify(rep c17Rep) {
 		}
 	} else {
 		rep.Class("type:" + k)
+	}
+	if v.ModelPrec > 0 {
+		rep.Class("model:fraction-digits-differ-from-the-client's")
 	}
 	if v.NoOpts {
 		rep.Class("model:no-type-opts")
